@@ -132,3 +132,45 @@ impl<A, B, C> Mappings<2, (A, B, C)> {
 mod testing {
 	// TODO: consider testing internals
 }
+
+#[cfg(feature = "verif")]
+pub mod verif {
+	//! Verification hooks (feature `verif`): forwarding wrappers only (sides passed as `Option`s).
+	use std::fmt::Debug;
+	use anyhow::Result;
+	use java_string::JavaStr;
+	use crate::action::diff_mappings::verif::combination;
+	use crate::tree::names::{Names, Namespaces};
+	use crate::tree::NodeJavadocInfo;
+
+	pub fn merge_javadoc<Target, Javadoc>(a: Option<&Target>, b: Option<&Target>) -> Result<Option<Javadoc>>
+		where
+			Target: NodeJavadocInfo<Option<Javadoc>>,
+			Javadoc: Clone + Debug + PartialEq,
+	{
+		super::merge_javadoc(combination(a, b))
+	}
+	pub fn merge_javadoc_ab<TargetA, TargetB, Javadoc>(a: &TargetA, b: &TargetB) -> Result<Option<Javadoc>>
+		where
+			TargetA: NodeJavadocInfo<Option<Javadoc>>,
+			TargetB: NodeJavadocInfo<Option<Javadoc>>,
+			Javadoc: Clone + Debug + PartialEq,
+	{
+		super::merge_javadoc_ab(a, b)
+	}
+	pub fn merge_namespaces<A, B, C>(a: &Namespaces<2, (A, B)>, b: &Namespaces<2, (A, C)>) -> Result<Namespaces<3, (A, B, C)>> {
+		super::merge_namespaces(a, b)
+	}
+	pub fn merge_names<Name>(a: Option<&Names<2, Name>>, b: Option<&Names<2, Name>>) -> Result<Names<3, Name>>
+		where
+			Name: Debug + Clone + PartialEq + AsRef<JavaStr>,
+	{
+		super::merge_names(combination(a, b))
+	}
+	pub fn merge_equal<T>(a: Option<&T>, b: Option<&T>) -> Result<T>
+		where
+			T: Clone + PartialEq + Debug,
+	{
+		super::merge_equal(combination(a, b))
+	}
+}
